@@ -19,7 +19,7 @@ RULE = ('random netlist plans from the block catalogue (3-40 blocks = 5-250 leav
         'each instantiated under identity/reverse/random permutations of block order and of wire order (all n! for n <= 5 blocks), '
         'designs with gated clock domains (wrappers whose ClockDriver enable is a poked input, a toggling register or a delayed input, holding registers and '
         'combinational leaves fed from outside and inside the domain), reversed/shuffled inverter chains of 50-400 leaves, size classes (chains of 1001-2500 leaves and layered netlists of 3300 leaves with combinational paths deeper than 1000 leaves, in dataflow / reversed / locally shuffled / shuffled order), and plans with one injected loop (self, 2, n, through a wrapper, '
-        'rewired back edge, behind a sorted prefix; through a Reg = legal); the simulator is created through getSimulator(), directly with Simulator(sys), by a Scope constructor or by a repeated getSimulator(), and clock calls are clk(n) with n = 0, 1, 2-5, 17-40; a case is (plan, block order, wire order, creation mode); '
+        'rewired back edge, behind a sorted prefix; through a Reg = legal); the simulator is created through getSimulator(), directly with Simulator(sys), by a Scope constructor or by a repeated getSimulator(), and clock calls are clk(n) with n = 0, 1, 2-5, 17-40, further handles (Simulator(sys), Scope, getSimulator) are taken on the live simulator between calls while the first handle stays in use, a third of the DAGs contain run-time AbstractLogic instances whose propagate() is bound to the instance next to behaviour-less instances of the same class; a case is (plan, block order, wire order, creation mode); '
         'non-trivial = the initial leaf list of that order is not already topological (>= 1 inverted dependency edge) '
         'or the plan is cyclic; distinct by content hash of (plan, orders)')
 SHARDS = {'quick': 1, 'thorough': 16}
@@ -156,7 +156,15 @@ def run_order(run, plan, bo, wo, hist, stats, meta, late=None, how='get'):
                     bb.hw.getSimulator()
             except Exception as e:
                 early.append(e)
-        b = netgen.build(plan, bo, wo, pause_at=late, on_pause=on_pause if late is not None else None)
+        try:
+            b = netgen.build(plan, bo, wo, pause_at=late, on_pause=on_pause if late is not None else None)
+        except Exception as e:
+            # every plan is a legal netlist (it builds on the pinned tree in every order): refusing to build it is as
+            # much "a legal netlist is not simulated" as a refusal by getSimulator()
+            run.ev()
+            run.violation('legal_netlist_does_not_build', dict(exc=type(e).__name__), case, observed=repr(e)[:300],
+                          what='instantiating a legal plan raises %r' % (e,))
+            return ('error', 0, [])
         leaves, succ = netgen.leaf_graph(b.hw)
         inv = netgen.inversions(leaves, succ)
         cyc = netgen.comb_cycles(b.hw)
@@ -219,7 +227,28 @@ def run_order(run, plan, bo, wo, hist, stats, meta, late=None, how='get'):
         if drivers:
             rec.subscribers.append(on_event)
             stats['designs_with_gated_domains'] = stats.get('designs_with_gated_domains', 0) + 1
+        nh = 0
         for vals in hist[1:]:
+            hk = vals.get('#handle')
+            if hk:
+                # a further handle / observer on the live simulator, taken WITHOUT giving up the first handle:
+                # nothing observable may change ("a second observer changes nothing")
+                nh += 1
+                try:
+                    with muted():
+                        if hk == 'direct':
+                            import py4hw.simulation as S
+                            S.Simulator(b.hw)
+                        elif hk == 'scope':
+                            import py4hw
+                            py4hw.Scope(b.hw, 'verif_scope_h%d' % nh, [x for x in b.W.values()][:1])
+                        else:
+                            b.hw.getSimulator()
+                except Exception as e:
+                    run.violation('second_handle_raises', dict(handle=hk, exc=type(e).__name__), case, observed=repr(e)[:200], what='taking a %s handle raises %r' % (hk, e))
+                    return ('error', inv, cyc)
+                stats['further_handles_' + hk] = stats.get('further_handles_' + hk, 0) + 1
+                ok = schedule_check(run, b, sim, leaves, succ, dict(case, after_handle=hk), stats) and ok
             b.poke(vals)
             off_now.clear()
             ncyc = vals.get('#n', 1)
@@ -258,6 +287,8 @@ def make_hist(plan, rnd, m):
             h['#n'] = rnd.randint(2, 5)
         elif x < 0.38:
             h['#n'] = rnd.randint(17, 40)
+        if rnd.random() < 0.2:
+            h['#handle'] = rnd.choice(['direct', 'direct', 'scope', 'get'])
         hist.append(h)
     return hist
 
@@ -365,10 +396,11 @@ def run_check(run, tier, seed, shard):
             k = 120
         else:
             nb = rnd.randint(4, 16) if quick else rnd.randint(4, 40)
-            plan = netgen.gen_dag(rnd, nb, prim_only=(i % 3 == 0), n_regs=rnd.randint(0, 4), n_boxes=rnd.randint(0, 3), tier=tier)
+            plan = netgen.gen_dag(rnd, nb, prim_only=(i % 3 == 0), n_regs=rnd.randint(0, 4), n_boxes=rnd.randint(0, 3), tier=tier, p_abs=(0.2 if i % 3 == 1 else 0.0))
             k = 6 if quick else 16
         check_plan(run, plan, rnd, k, 3 if quick else 4, stats, dict(kind='dag', index=i), exhaustive_max=5 if (small or not quick) else 0)
         stats['dags'] = stats.get('dags', 0) + 1
+        stats['abs_blocks'] = stats.get('abs_blocks', 0) + sum(1 for x in plan['blocks'] if x['kind'].startswith('Abs'))
         if stats['dags'] in (1, 7, 40):
             run.sample(dict(kind='dag', index=i, blocks=len(plan['blocks']), first_blocks=[(b['id'], b.get('entry', b['kind'])) for b in plan['blocks'][:6]]))
 
@@ -497,7 +529,8 @@ def post_merge(run, tier, seed):
     rej = run.extra.get('rejection_table', {})
     if not any(':cyclic:' in k for k in rej):
         run.inconclusive.append('rejection monitor saw no cyclic netlist')
-    for k, why in (('created_direct', 'no simulator was constructed directly with Simulator(sys)'), ('created_scope', 'no simulator was created by a Scope constructor'),
+    for k, why in (('further_handles_direct', 'no second Simulator(sys) handle was taken on a live simulator'),
+                   ('abs_blocks', 'no run-time (AbstractLogic) leaf with instance-bound behaviour was simulated'), ('created_direct', 'no simulator was constructed directly with Simulator(sys)'), ('created_scope', 'no simulator was created by a Scope constructor'),
                    ('created_twice', 'getSimulator() was never called twice in a row'), ('clk_calls_n0', 'clk(0) was never called'), ('clk_calls_many', 'clk(n>1) was never called')):
         if not c.get(k):
             run.inconclusive.append(why)
@@ -517,7 +550,7 @@ def replay(run, case):
     stats = {}
     bids = [b['id'] for b in plan['blocks']]
     wids = [w['id'] for w in plan['wires']]
-    hist = [{k: (int(v, 16) if isinstance(v, str) else v) for k, v in h.items()} for h in c.get('inputs', [{}])]
+    hist = [{k: (int(v, 16) if isinstance(v, str) and not k.startswith('#') else v) for k, v in h.items()} for h in c.get('inputs', [{}])]
     meta = c.get('meta', {})
     n0 = len(run.violations) + sum(v[1] for v in run.known_hits.values())
     r = run_order(run, plan, c.get('block_order', bids), c.get('wire_order', wids), hist, stats, meta, late=c.get('late'), how=c.get('how', 'get'))
